@@ -299,7 +299,7 @@ def field_writers(ctx, rep):
         rep.check("R18.5", meth, not extra,
                   "Builder::%s also changes %s: options configured elsewhere must survive it, otherwise the handshake no longer carries what was configured (allowed: %s)" % (meth, extra, sorted(allowed)),
                   b.loc(), sample={"method": meth, "writes": sorted(wrote)})
-    rep.floor("R18.5", 28)
+    rep.floor("R18.5", 25)
 
 
 CONNECT = [("blocking", "insim::builder::Builder::connect_blocking", r"blocking_impl::framed::Framed"),
